@@ -64,11 +64,13 @@ class Gen:
             return {"kind": "dup"}
         if kind == "regex":
             rx = r.choice(["contains", "prefix", "suffix", "emptyonly", "any", "alt", "icontains", "backref", "backref", "backref",
-                           "group"])
+                           "group", "xcontains"])
             lits = [[97], [97, 98], [65], [32], [46], [40], [0xE9], [98]]
             lit = r.choice(lits)
             if rx == "icontains":
                 lit = r.choice([[97], [65, 66], [98, 97]])       # ASCII letters without k/s (Unicode folding)
+            if rx == "xcontains":
+                lit = r.choice([[97, 98], [98, 97], [97], [65, 66]])   # letters: in extended syntax blanks and '#' would not be literal
             return {"kind": "regex", "rx": rx, "lit": lit, "lit2": r.choice(lits), "ctor": r.choice(["str", "qre"])}
         if kind == "cat":
             rules, text = catrules.gen_rules(r, CATS, 3)
@@ -252,7 +254,7 @@ def gen_builtin_tables(first_id):
     def msg(t, text, cat="default"):
         return {"op": "msg", "type": t, "text": text, "cat": u(cat)}
     all_texts = [msg("info", t) for t in TEXTS]
-    for rx in ["contains", "prefix", "suffix", "emptyonly", "any", "alt", "icontains", "backref", "group"]:
+    for rx in ["contains", "prefix", "suffix", "emptyonly", "any", "alt", "icontains", "backref", "group", "xcontains"]:
         for ctor in ("str", "qre"):
             for lit, lit2 in (([97], [98]), ([97, 98], [65]), ([98], [97, 98])):
                 scenario({"kind": "regex", "rx": rx, "lit": lit, "lit2": lit2, "ctor": ctor}, all_texts)
